@@ -208,8 +208,25 @@ def _create_default_registry() -> OperatorRegistry:
 
     # Unary operators
     # Arithmetic functions
-    ops.register(tokens.PLUS, "+{0}", is_prefix=True)
-    ops.register(tokens.MINUS, "-{0}", is_prefix=True)
+    # A signed operand must be parenthesised: "--x" starts a SQL comment ("-(-Me_1)").
+    ops.register_custom(
+        tokens.PLUS,
+        SQLOperator(
+            sql_template="+{0}",
+            is_prefix=True,
+            custom_generator=lambda a: f"+({a})" if a[:1] in "+-" else f"+{a}",
+        ),
+        arity=1,
+    )
+    ops.register_custom(
+        tokens.MINUS,
+        SQLOperator(
+            sql_template="-{0}",
+            is_prefix=True,
+            custom_generator=lambda a: f"-({a})" if a[:1] in "+-" else f"-{a}",
+        ),
+        arity=1,
+    )
     ops.register(tokens.CEIL, "CEIL({0})")
     ops.register(tokens.FLOOR, "FLOOR({0})")
     ops.register(tokens.ABS, "ABS({0})")
@@ -217,7 +234,7 @@ def _create_default_registry() -> OperatorRegistry:
     ops.register(tokens.LN, "LN({0})")
     ops.register(tokens.SQRT, "SQRT({0})")
     # Logical
-    ops.register(tokens.NOT, "NOT {0}", is_prefix=True)
+    ops.register(tokens.NOT, "(NOT {0})", is_prefix=True)
     # String functions
     ops.register(tokens.LEN, "LENGTH({0})")
     ops.register(tokens.TRIM, "TRIM({0})")
